@@ -17,7 +17,7 @@ import z3
 
 from pyvc.core import (SV, SBool, SInt, SSeq, SDict, Obj, Val, VNone, BoolS, IntS, Cls, to_val, to_int, cls_of, sub, cls_const,
                        class_axioms, Stub, PyRaise, Unsupported)
-from pyvc.driver import Ob
+from pyvc.driver import Ob, cover_hyps
 from pyvc.ground import Q
 from pyvc.stmt import LoopSpec
 from pyvc.env import _MISSING
@@ -134,7 +134,7 @@ def factory_obligations(chk, mod, fname, noop):
     results = I.run_function(func, mk)
     for pi, (path, out, obls, writes, cur) in enumerate(results):
         _factory_one(chk, func, pi, path, out, obls, cur)
-    chk.add(Ob(func, "cover", "pre", results[0][0].hyps, z3.BoolVal(True), expect="sat"))
+    chk.add(Ob(func, "cover", "pre", cover_hyps(results), z3.BoolVal(True), expect="sat"))
     chk.trusted.update(I.assumed_used)
 
 
